@@ -21,6 +21,7 @@ type ReplayFile struct {
 	Run       uint64            `json:"run"`
 	Thorough  bool              `json:"thorough"`
 	Trace     []uint64          `json:"trace"` // nil => generate from (verif_seed, run)
+	Explicit  json.RawMessage   `json:"explicit_scenario,omitempty"` // if set: executed directly, no generator involved
 	Skip      []string          `json:"skip,omitempty"`
 	Violation *simkit.Violation `json:"violation,omitempty"`
 	Shrink    string            `json:"shrink,omitempty"`
@@ -297,6 +298,25 @@ func replayMain(path, progressPath string) int {
 	}
 	prog.setRun(rf.Run)
 	startWatchdog(prog, hangSeconds*time.Second)
+	if len(rf.Explicit) > 0 {
+		sr, ok := cfg.Engine.(simkit.ScenarioReplayer)
+		if !ok {
+			fmt.Fprintf(os.Stderr, "engine of %s cannot replay explicit scenarios\n", rf.Property)
+			return 2
+		}
+		v, err := sr.ReplayScenario(rf.Explicit, &simkit.Ctx{Stats: simkit.NewStats(), Thorough: rf.Thorough})
+		if err != nil {
+			fmt.Fprintln(os.Stderr, err)
+			return 2
+		}
+		if v == nil {
+			fmt.Printf("REPLAY-CLEAN property=%s file=%s\n", rf.Property, path)
+			return 0
+		}
+		out, _ := json.MarshalIndent(v, "", " ")
+		fmt.Printf("REPLAY-VIOLATION property=%s class=%s\n%s\n", rf.Property, v.Class(), out)
+		return 1
+	}
 	var c *simkit.Choices
 	if rf.Trace == nil {
 		c = simkit.NewChoices(simkit.RunSeed(rf.VerifSeed, rf.Property, rf.Run))
